@@ -266,6 +266,7 @@ cdef class StratifiedHashNNPS(NNPS):
 
         return length
 
+    @cython.cdivision(True)
     cdef inline void _set_h_max(self, double* current_cells, double* src_h_ptr,
             int num_particles) noexcept nogil:
         cdef double h
@@ -273,7 +274,13 @@ cdef class StratifiedHashNNPS(NNPS):
         for i in range(num_particles):
             h = src_h_ptr[i]
             idx = self._get_hash_id(h)
-            current_cells[idx] = fmax(h, current_cells[idx])
+            # Use the upper end of the level's interval of h rather than the
+            # largest h this array happens to have in the level: the number
+            # of cells a query has to visit, ~(h_query/h_level)**3, is then
+            # bounded by the number of levels also for a query particle of
+            # another array with a much larger h.
+            current_cells[idx] = (self.hmin + (idx + 1)*self.interval_size) \
+                    / self.radius_scale
 
     @cython.cdivision(True)
     cpdef _refresh(self):
